@@ -148,6 +148,47 @@ def parse_args_forwarding(ctx, case):
     ctx.check('-b parsed as a matcher', (a.stop_matcher is matcher.never) == ('-b' not in left))
 
 
+def values_like_markers(ctx, case):
+    """only the words -r / --run / -g / --gdb (and clusters ending in r / g) are markers: the bare words r, g, run, gdb - as the value of one of
+    our options or as a file name - are values"""
+    import logging, io, contextlib
+    logging.disable(logging.CRITICAL)
+    from frontends.tui import arguments
+    from core import matcher
+    word = ctx.choose(['r', 'g', 'run', 'gdb'], 'bare_word')
+    opt = ctx.choose(['-l', '--load', '-f', '-b', '--libwayland'], 'option')
+    tail = ctx.choose([None, ['-r', 'prog', 'g', 'run'], ['--gdb', 'prog', 'r']], 'marker_later')
+    ours = [opt, word] + ([] if opt in ('-l', '--load') else (['-p'] if tail is None else []))
+    argv = ['main.py'] + ours + (tail or [])
+    saved = arguments.check_gdb
+    arguments.check_gdb = lambda: False
+    try:
+        with contextlib.redirect_stdout(io.StringIO()), contextlib.redirect_stderr(io.StringIO()):
+            try:
+                a = arguments.parse_args(list(argv))
+            except SystemExit:
+                a = None
+    finally:
+        arguments.check_gdb = saved
+    if tail is not None and opt in ('-l', '--load'):
+        # two modes requested: usage, nothing runs (C19 select-mode)
+        ctx.check('a load path plus a marker: no mode', a is None or a.mode is None)
+        return
+    ctx.check('the vector is accepted', a is not None)
+    if a is None:
+        return
+    ctx.check('everything before the real marker is ours, the bare word included', a.wayland_debug_args == ['main.py'] + ours)
+    ctx.check('forwarded: exactly the words after the real marker', a.command_args == (tail[1:] if tail else []))
+    exp_mode = arguments.Mode.LOAD_FROM_FILE if (tail is None and opt in ('-l', '--load')) else arguments.Mode.PIPE if tail is None else (arguments.Mode.RUN if tail[0] == '-r' else arguments.Mode.GDB_RUNNER)
+    ctx.check('mode', a.mode == exp_mode)
+    if opt in ('-l', '--load'):
+        ctx.check('the file to load is the bare word', a.load_path == word)
+    if opt == '-f':
+        ctx.check('the filter is the matcher `%s`' % word, a.filter_matcher is not matcher.always and word in str(a.filter_matcher))
+    if opt == '-b':
+        ctx.check('the breakpoint is the matcher `%s`' % word, a.stop_matcher is not matcher.never and word in str(a.stop_matcher))
+
+
 def main_block(ctx, case):
     """the program's entry point (main.py run as __main__) with the real argv handling: what wayland-debug itself does (verbosity, colour, mode)
     is decided by the words before the marker only; the words after it reach the runner verbatim"""
@@ -442,6 +483,13 @@ def gdb_quoting(ctx, case):
                     got = 'undecodable: %s' % e
                 ctx.check('the in-GDB instance receives exactly our words (hostile word %r)' % (words[0] if words else None), got == ['/opt/wd/main.py'] + list(words))
             ctx.check('PYTHONPATH points at the script directory', captured[0][1].get('PYTHONPATH', '').split(':')[0] == '/opt/wd')
+            # gdb's environment is what the debugged program (and whatever it starts, a nested wayland-debug included) inherits: ours, with the two
+            # documented search paths extended - nothing else added, nothing removed
+            env = captured[0][1]
+            special = ('PYTHONPATH', 'LD_LIBRARY_PATH')
+            ctx.check('the program under GDB runs in our environment (only PYTHONPATH and LD_LIBRARY_PATH are extended)',
+                      env is not None and {k: v for k, v in env.items() if k not in special} == {k: v for k, v in os.environ.items() if k not in special}
+                      and env.get('LD_LIBRARY_PATH', '') == os.environ.get('LD_LIBRARY_PATH', ''))
     finally:
         runner.subprocess, runner.verify_gdb_available = saved
 
@@ -467,6 +515,7 @@ def obligations(tier):
         Ob('split-at-first-marker', 'symx', '_split_command vs the specification of markers (own word / last letter of a single-dash cluster), words with symbolic characters', FUNCS[:3], bounds, split,
            cases=cases, stubs=['words are SWord proxies (list of symbolic code points)'], outside='clusters with r/g before their last letter (usage error); non-ASCII words'),
         Ob('select-mode', 'symx', 'exactly one of run / gdb / load / pipe / in-GDB', FUNCS[3:4], 'all 3 x 2 x 3 x 2 combinations', select_mode, cases=[None], stubs=['check_gdb stubbed']),
+        Ob('values-like-markers', 'symx', 'the bare words r / g / run / gdb as values of our options are values, never the marker', FUNCS[:3], '4 words x 5 options x marker later or not', values_like_markers, cases=[None]),
         Ob('parse-args-forwarding', 'symx', 'real parse_args: forwarded words (symbolic, or spelled like our options) come back as the identical objects; our side is interpreted', FUNCS[4:5],
            '5 left parts x 6 marker spellings x 5 forwarded vectors', parse_args_forwarding, cases=[None], stubs=['check_gdb stubbed', 'stdout/stderr captured']),
         Ob('main-block', 'symx', 'main.py run as __main__ with the real sys.argv handling: verbosity / colour / mode from our words only, forwarded words verbatim, no chatter caused by the program\'s words',
